@@ -527,11 +527,11 @@ Section Calls.
     /\ okres (snd (chown_gen slm sw vw (W (SLASH :: r)) uid gid)) = false.
   Proof.
     intros F (V & HR) Hok. unfold chown_gen, win. rewrite (vr_osw V), (vr_osl V). cbn [ostype_eqb].
-    rewrite orb_true_r, orb_false_r. cbn [fst snd]. split; [|reflexivity].
-    destruct (v_idm vl && negb (us_admin (v_user vl))); [exact F|].
+    cbn [fst snd]. split; [|reflexivity].
     destruct (sr_child (search_node sl vl (SLASH :: r) slm)) as [c|]; [|exact F].
     destruct (negb (is_file_exists (sr_err (search_node sl vl (SLASH :: r) slm)))); [exact F|].
-    destruct (get (f_heap sl) c) as [n|] eqn:El; [|exact F]. cbn [fst].
+    destruct (get (f_heap sl) c) as [n|] eqn:El; [|exact F].
+    destruct (v_idm vl && negb (chown_ok (node_meta n) (v_user vl) uid gid)); [exact F|]. cbn [fst].
     destruct F as [FH FI FV]. constructor; cbn [f_heap f_last_id f_vols with_heap]; auto.
     (* only the owner changes on the Linux side: the nodes stay related *)
     destruct (hrel_get_cases c FH) as [[Ew El']|(nw & nl & Ew & El' & Hn)]; [congruence|].
